@@ -131,6 +131,9 @@ func (m *Machine) callSSA(caller *Frame, fn *ssa.Function, args []Value, env []V
 	if m.p.trace {
 		fmt.Fprintf(m.p.traceW, "%s> %s\n", strings.Repeat(" ", m.depth), fn.String())
 	}
+	saveFn := m.curFn
+	m.curFn = fn.String()
+	defer func() { m.curFn = saveFn }()
 	fr := &Frame{m: m, caller: caller, fn: fn, env: make(map[ssa.Value]Value, 16)}
 	for i, p := range fn.Params {
 		fr.env[p] = args[i]
